@@ -82,7 +82,13 @@ def drive (s : St) (toks : List String) : St × String :=
     | some a =>
       match step s a with
       | some s' => (s', if quiescentWhenPaused s' then "ok" else "ok-but-paused-not-quiescent")
-      | none => (s, "disabled " ++ showState s)
+      | none =>
+        -- an additional *read* of a shared event that the model does not expect at this point is a
+        -- stutter, provided the value read is the model's value (harmless rewrites add such reads)
+        match a with
+        | .bReadResume _ v | .bLeaveRead _ v => if v = s.resume then (s, "ok") else (s, "disabled " ++ showState s)
+        | .bReadShutdown _ v => if v = s.shutdown then (s, "ok") else (s, "disabled " ++ showState s)
+        | _ => (s, "disabled " ++ showState s)
     | none => (s, "bad-op")
   | ["state"] => (s, showState s)
   | _ => (s, "bad-op")
